@@ -10,16 +10,27 @@
 #![allow(dead_code, clippy::all)]
 
 pub mod cap {
+    //! Capacities. Under Kani they are deliberately tiny: the cost of a harness is dominated by copying the VM's state
+    //! (measured: `Runtime::default()` alone is 563 k symex steps at VEC=8 and 188 k at VEC=4), and every capacity is part
+    //! of the stated bound of every harness. Natively they are large enough for the repository's test-suite.
     #[cfg(kani)]
-    pub const STR: usize = 16;
+    pub const STR: usize = 8;
     #[cfg(kani)]
-    pub const VEC: usize = 8;
+    pub const VEC: usize = 6;
+    #[cfg(kani)]
+    pub const MAP: usize = 4;
+    #[cfg(kani)]
+    pub const DEQ: usize = 8;
     #[cfg(kani)]
     pub const ARCSTR: usize = 32;
     #[cfg(not(kani))]
     pub const STR: usize = 272;
     #[cfg(not(kani))]
-    pub const VEC: usize = 256;
+    pub const VEC: usize = 128;
+    #[cfg(not(kani))]
+    pub const MAP: usize = 128;
+    #[cfg(not(kani))]
+    pub const DEQ: usize = 1100;
     #[cfg(not(kani))]
     pub const ARCSTR: usize = 272;
 }
@@ -400,24 +411,88 @@ pub mod string {
 pub mod vec {
     use super::cap::VEC;
     use super::capacity_exceeded;
-    use core::mem::MaybeUninit;
+    use core::mem::{ManuallyDrop, MaybeUninit};
 
-    type Buf<T> = Option<Box<[MaybeUninit<T>; VEC]>>;
-
-    fn new_buf<T>() -> Box<[MaybeUninit<T>; VEC]> {
-        unsafe { Box::<[MaybeUninit<T>; VEC]>::new_uninit().assume_init() }
+    /// Element storage. Under Kani a TYPED array `[T; VEC]` (unused slots hold never-read garbage, the array is never dropped
+    /// as a whole): measured on an Opcode-sized element, reading an enum back through `MaybeUninit` (a union) makes CBMC lose the
+    /// discriminant (273 of 1035 VCCs left vs 6 of 89), which turns every VM dispatch into a walk over all opcodes.
+    /// Natively the same API over `[MaybeUninit<T>; VEC]` (no uninitialised typed values outside the model checker).
+    #[cfg(kani)]
+    struct Store<T, const N: usize>(ManuallyDrop<[T; N]>);
+    #[cfg(kani)]
+    impl<T, const N: usize> Store<T, N> {
+        const fn new() -> Self {
+            Store(unsafe { MaybeUninit::uninit().assume_init() })
+        }
+        #[inline]
+        unsafe fn write(&mut self, i: usize, v: T) {
+            core::ptr::write(&mut self.0[i], v)
+        }
+        #[inline]
+        unsafe fn read(&self, i: usize) -> T {
+            core::ptr::read(&self.0[i])
+        }
+        #[inline]
+        unsafe fn get(&self, i: usize) -> &T {
+            &self.0[i]
+        }
+        #[inline]
+        unsafe fn get_mut(&mut self, i: usize) -> &mut T {
+            &mut self.0[i]
+        }
+        #[inline]
+        unsafe fn slice(&self, len: usize) -> &[T] {
+            &self.0[..len]
+        }
+        #[inline]
+        unsafe fn slice_mut(&mut self, len: usize) -> &mut [T] {
+            &mut self.0[..len]
+        }
+    }
+    #[cfg(not(kani))]
+    struct Store<T, const N: usize>([MaybeUninit<T>; N]);
+    #[cfg(not(kani))]
+    impl<T, const N: usize> Store<T, N> {
+        const fn new() -> Self {
+            Store([const { MaybeUninit::uninit() }; N])
+        }
+        #[inline]
+        unsafe fn write(&mut self, i: usize, v: T) {
+            self.0[i] = MaybeUninit::new(v);
+        }
+        #[inline]
+        unsafe fn read(&self, i: usize) -> T {
+            self.0[i].assume_init_read()
+        }
+        #[inline]
+        unsafe fn get(&self, i: usize) -> &T {
+            self.0[i].assume_init_ref()
+        }
+        #[inline]
+        unsafe fn get_mut(&mut self, i: usize) -> &mut T {
+            self.0[i].assume_init_mut()
+        }
+        #[inline]
+        unsafe fn slice(&self, len: usize) -> &[T] {
+            core::slice::from_raw_parts(self.0.as_ptr() as *const T, len)
+        }
+        #[inline]
+        unsafe fn slice_mut(&mut self, len: usize) -> &mut [T] {
+            core::slice::from_raw_parts_mut(self.0.as_mut_ptr() as *mut T, len)
+        }
     }
 
-    /// Bounded vector: at most `VEC` elements in a lazily allocated boxed array (the indirection is needed because the AST
-    /// is recursive through `Vec`).
-    pub struct Vec<T> {
+    /// Bounded vector: at most `VEC` elements in an INLINE array. (Measured: CBMC treats heap objects byte-wise and then
+    /// cannot resolve enum discriminants read back from them — a one-instruction VM step took 242 s with boxed storage;
+    /// inline typed storage keeps constant propagation intact.) The two recursive AST positions use `BVec` instead.
+    pub struct Vec<T, const N: usize = VEC> {
         len: usize,
-        buf: Buf<T>,
+        buf: Store<T, N>,
     }
 
-    impl<T> Vec<T> {
+    impl<T, const N: usize> Vec<T, N> {
         pub const fn new() -> Self {
-            Vec { len: 0, buf: None }
+            Vec { len: 0, buf: Store::new() }
         }
         pub fn with_capacity(_n: usize) -> Self {
             Self::new()
@@ -431,39 +506,49 @@ pub mod vec {
             self.len == 0
         }
         #[inline]
-        fn ptr(&self) -> *const T {
-            match &self.buf {
-                Some(b) => b.as_ptr() as *const T,
-                None => core::ptr::NonNull::<T>::dangling().as_ptr(),
-            }
-        }
-        #[inline]
-        fn ptr_mut(&mut self) -> *mut T {
-            match &mut self.buf {
-                Some(b) => b.as_mut_ptr() as *mut T,
-                None => core::ptr::NonNull::<T>::dangling().as_ptr(),
-            }
-        }
-        #[inline]
         pub fn as_slice(&self) -> &[T] {
-            unsafe { core::slice::from_raw_parts(self.ptr(), self.len) }
+            unsafe { self.buf.slice(self.len) }
         }
         #[inline]
         pub fn as_mut_slice(&mut self) -> &mut [T] {
             let len = self.len;
-            unsafe { core::slice::from_raw_parts_mut(self.ptr_mut(), len) }
+            unsafe { self.buf.slice_mut(len) }
+        }
+        // typed element access (inherent methods shadow the slice ones reached through Deref)
+        #[inline]
+        pub fn get(&self, i: usize) -> Option<&T> {
+            if i < self.len {
+                Some(unsafe { self.buf.get(i) })
+            } else {
+                None
+            }
+        }
+        #[inline]
+        pub fn get_mut(&mut self, i: usize) -> Option<&mut T> {
+            if i < self.len {
+                Some(unsafe { self.buf.get_mut(i) })
+            } else {
+                None
+            }
+        }
+        #[inline]
+        pub fn last(&self) -> Option<&T> {
+            if self.len == 0 {
+                None
+            } else {
+                Some(unsafe { self.buf.get(self.len - 1) })
+            }
+        }
+        #[inline]
+        pub fn first(&self) -> Option<&T> {
+            self.get(0)
         }
         pub fn push(&mut self, v: T) {
-            if self.len >= VEC {
+            if self.len >= N {
                 capacity_exceeded();
             }
-            if self.buf.is_none() {
-                self.buf = Some(new_buf());
-            }
             let len = self.len;
-            if let Some(b) = &mut self.buf {
-                b[len] = MaybeUninit::new(v);
-            }
+            unsafe { self.buf.write(len, v) };
             self.len += 1;
         }
         pub fn pop(&mut self) -> Option<T> {
@@ -472,10 +557,7 @@ pub mod vec {
             }
             self.len -= 1;
             let len = self.len;
-            match &self.buf {
-                Some(b) => Some(unsafe { b[len].assume_init_read() }),
-                None => None,
-            }
+            Some(unsafe { self.buf.read(len) })
         }
         pub fn clear(&mut self) {
             if core::mem::needs_drop::<T>() {
@@ -492,41 +574,34 @@ pub mod vec {
         }
         pub fn insert(&mut self, idx: usize, v: T) {
             assert!(idx <= self.len);
-            if self.len >= VEC {
+            if self.len >= N {
                 capacity_exceeded();
             }
-            if self.buf.is_none() {
-                self.buf = Some(new_buf());
+            let mut i = self.len;
+            while i > idx {
+                unsafe { let t = self.buf.read(i - 1); self.buf.write(i, t) };
+                i -= 1;
             }
-            let len = self.len;
-            if let Some(b) = &mut self.buf {
-                let mut i = len;
-                while i > idx {
-                    b[i] = MaybeUninit::new(unsafe { b[i - 1].assume_init_read() });
-                    i -= 1;
-                }
-                b[idx] = MaybeUninit::new(v);
-            }
+            unsafe { self.buf.write(idx, v) };
             self.len += 1;
         }
         pub fn remove(&mut self, idx: usize) -> T {
             assert!(idx < self.len);
             let len = self.len;
-            let b = self.buf.as_mut().unwrap();
-            let out = unsafe { b[idx].assume_init_read() };
+            let out = unsafe { self.buf.read(idx) };
             let mut i = idx;
             while i + 1 < len {
-                b[i] = MaybeUninit::new(unsafe { b[i + 1].assume_init_read() });
+                unsafe { let t = self.buf.read(i + 1); self.buf.write(i, t) };
                 i += 1;
             }
             self.len -= 1;
             out
         }
-        pub fn append(&mut self, other: &mut Vec<T>) {
+        pub fn append(&mut self, other: &mut Vec<T, N>) {
             let n = other.len;
             let mut i = 0;
             while i < n {
-                let v = unsafe { other.buf.as_ref().unwrap()[i].assume_init_read() };
+                let v = unsafe { other.buf.read(i) };
                 self.push(v);
                 i += 1;
             }
@@ -548,21 +623,20 @@ pub mod vec {
             (start, end)
         }
         /// Eager drain: the drained elements are moved out immediately, the tail is shifted down.
-        pub fn drain<R: core::ops::RangeBounds<usize>>(&mut self, range: R) -> Drain<'_, T> {
+        pub fn drain<R: core::ops::RangeBounds<usize>>(&mut self, range: R) -> Drain<'_, T, N> {
             let (start, end) = self.bounds(range);
-            let mut out: Vec<T> = Vec::new();
+            let mut out: Vec<T, N> = Vec::new();
             let len = self.len;
             if end > start {
-                let b = self.buf.as_mut().unwrap();
                 let mut i = start;
                 while i < end {
-                    out.push(unsafe { b[i].assume_init_read() });
+                    out.push(unsafe { self.buf.read(i) });
                     i += 1;
                 }
                 let n = end - start;
                 let mut j = end;
                 while j < len {
-                    b[j - n] = MaybeUninit::new(unsafe { b[j].assume_init_read() });
+                    unsafe { let t = self.buf.read(j); self.buf.write(j - n, t) };
                     j += 1;
                 }
                 self.len = len - n;
@@ -594,7 +668,7 @@ pub mod vec {
         }
     }
 
-    impl<T> Drop for Vec<T> {
+    impl<T, const N: usize> Drop for Vec<T, N> {
         fn drop(&mut self) {
             if core::mem::needs_drop::<T>() {
                 while let Some(v) = self.pop() {
@@ -603,43 +677,43 @@ pub mod vec {
             }
         }
     }
-    impl<T> Default for Vec<T> {
+    impl<T, const N: usize> Default for Vec<T, N> {
         fn default() -> Self {
             Vec::new()
         }
     }
-    impl<T> core::ops::Deref for Vec<T> {
+    impl<T, const N: usize> core::ops::Deref for Vec<T, N> {
         type Target = [T];
         #[inline]
         fn deref(&self) -> &[T] {
             self.as_slice()
         }
     }
-    impl<T> core::ops::DerefMut for Vec<T> {
+    impl<T, const N: usize> core::ops::DerefMut for Vec<T, N> {
         #[inline]
         fn deref_mut(&mut self) -> &mut [T] {
             self.as_mut_slice()
         }
     }
-    impl<T: Clone> Clone for Vec<T> {
+    impl<T: Clone, const N: usize> Clone for Vec<T, N> {
         fn clone(&self) -> Self {
             let mut out = Vec::new();
             let mut i = 0;
             while i < self.len {
-                out.push(self.as_slice()[i].clone());
+                out.push(unsafe { self.buf.get(i) }.clone());
                 i += 1;
             }
             out
         }
     }
-    impl<T: PartialEq> PartialEq for Vec<T> {
+    impl<T: PartialEq, const N: usize> PartialEq for Vec<T, N> {
         fn eq(&self, other: &Self) -> bool {
             if self.len != other.len {
                 return false;
             }
             let mut i = 0;
             while i < self.len {
-                if self.as_slice()[i] != other.as_slice()[i] {
+                if unsafe { self.buf.get(i) } != unsafe { other.buf.get(i) } {
                     return false;
                 }
                 i += 1;
@@ -647,13 +721,13 @@ pub mod vec {
             true
         }
     }
-    impl<T: Eq> Eq for Vec<T> {}
-    impl<T: core::fmt::Debug> core::fmt::Debug for Vec<T> {
+    impl<T: Eq, const N: usize> Eq for Vec<T, N> {}
+    impl<T: core::fmt::Debug, const N: usize> core::fmt::Debug for Vec<T, N> {
         fn fmt(&self, f: &mut core::fmt::Formatter<'_>) -> core::fmt::Result {
             f.debug_list().entries(self.as_slice().iter()).finish()
         }
     }
-    impl<T> core::iter::FromIterator<T> for Vec<T> {
+    impl<T, const N: usize> core::iter::FromIterator<T> for Vec<T, N> {
         fn from_iter<I: IntoIterator<Item = T>>(iter: I) -> Self {
             let mut v = Vec::new();
             for x in iter {
@@ -662,52 +736,43 @@ pub mod vec {
             v
         }
     }
-    impl<T> Extend<T> for Vec<T> {
+    impl<T, const N: usize> Extend<T> for Vec<T, N> {
         fn extend<I: IntoIterator<Item = T>>(&mut self, iter: I) {
             for x in iter {
                 self.push(x);
             }
         }
     }
-    impl<'a, T> IntoIterator for &'a Vec<T> {
+    impl<'a, T, const N: usize> IntoIterator for &'a Vec<T, N> {
         type Item = &'a T;
         type IntoIter = core::slice::Iter<'a, T>;
         fn into_iter(self) -> Self::IntoIter {
             self.as_slice().iter()
         }
     }
-    impl<'a, T> IntoIterator for &'a mut Vec<T> {
+    impl<'a, T, const N: usize> IntoIterator for &'a mut Vec<T, N> {
         type Item = &'a mut T;
         type IntoIter = core::slice::IterMut<'a, T>;
         fn into_iter(self) -> Self::IntoIter {
             self.as_mut_slice().iter_mut()
         }
     }
-    impl<T> IntoIterator for Vec<T> {
+    impl<T, const N: usize> IntoIterator for Vec<T, N> {
         type Item = T;
-        type IntoIter = Drain<'static, T>;
+        type IntoIter = Drain<'static, T, N>;
         fn into_iter(self) -> Self::IntoIter {
             Drain { items: self, front: 0, _p: core::marker::PhantomData }
         }
     }
-    impl<T> From<Option<T>> for Vec<T> {
-        fn from(o: Option<T>) -> Self {
-            let mut v = Vec::new();
-            if let Some(x) = o {
-                v.push(x);
-            }
-            v
-        }
-    }
 
     /// Owning iterator over moved-out elements (`drain`, `into_iter`).
-    pub struct Drain<'a, T> {
-        items: Vec<T>,
+    pub struct Drain<'a, T, const N: usize = VEC> {
+        items: Vec<T, N>,
         front: usize,
         _p: core::marker::PhantomData<&'a ()>,
     }
-    pub type IntoIter<T> = Drain<'static, T>;
-    impl<'a, T> Iterator for Drain<'a, T> {
+    pub type IntoIter<T, const N: usize = VEC> = Drain<'static, T, N>;
+    impl<'a, T, const N: usize> Iterator for Drain<'a, T, N> {
         type Item = T;
         fn next(&mut self) -> Option<T> {
             if self.front >= self.items.len {
@@ -715,25 +780,25 @@ pub mod vec {
             }
             let i = self.front;
             self.front += 1;
-            Some(unsafe { self.items.buf.as_ref().unwrap()[i].assume_init_read() })
+            Some(unsafe { self.items.buf.read(i) })
         }
         fn size_hint(&self) -> (usize, Option<usize>) {
             let n = self.items.len - self.front;
             (n, Some(n))
         }
     }
-    impl<'a, T> DoubleEndedIterator for Drain<'a, T> {
+    impl<'a, T, const N: usize> DoubleEndedIterator for Drain<'a, T, N> {
         fn next_back(&mut self) -> Option<T> {
             if self.front >= self.items.len {
                 return None;
             }
             self.items.len -= 1;
             let i = self.items.len;
-            Some(unsafe { self.items.buf.as_ref().unwrap()[i].assume_init_read() })
+            Some(unsafe { self.items.buf.read(i) })
         }
     }
-    impl<'a, T> ExactSizeIterator for Drain<'a, T> {}
-    impl<'a, T> Drop for Drain<'a, T> {
+    impl<'a, T, const N: usize> ExactSizeIterator for Drain<'a, T, N> {}
+    impl<'a, T, const N: usize> Drop for Drain<'a, T, N> {
         fn drop(&mut self) {
             if core::mem::needs_drop::<T>() {
                 while let Some(v) = self.next() {
@@ -744,16 +809,98 @@ pub mod vec {
             self.items.len = 0;
         }
     }
+
+    /// Heap-indirect bounded vector for the recursive AST positions (`Vec<Statement>`, `Vec<Expression>`, `Vec<Variable>` are
+    /// rewritten to `BVec<..>` in the copied sources): same API through Deref to `Vec<T>`.
+    pub struct BVec<T>(Box<Vec<T>>);
+    impl<T> BVec<T> {
+        pub fn new() -> Self {
+            BVec(Box::new(Vec::new()))
+        }
+        pub fn with_capacity(_n: usize) -> Self {
+            Self::new()
+        }
+    }
+    impl<T> Default for BVec<T> {
+        fn default() -> Self {
+            BVec::new()
+        }
+    }
+    impl<T> core::ops::Deref for BVec<T> {
+        type Target = Vec<T>;
+        fn deref(&self) -> &Vec<T> {
+            &self.0
+        }
+    }
+    impl<T> core::ops::DerefMut for BVec<T> {
+        fn deref_mut(&mut self) -> &mut Vec<T> {
+            &mut self.0
+        }
+    }
+    impl<T: Clone> Clone for BVec<T> {
+        fn clone(&self) -> Self {
+            BVec(Box::new((*self.0).clone()))
+        }
+    }
+    impl<T: PartialEq> PartialEq for BVec<T> {
+        fn eq(&self, other: &Self) -> bool {
+            *self.0 == *other.0
+        }
+    }
+    impl<T: core::fmt::Debug> core::fmt::Debug for BVec<T> {
+        fn fmt(&self, f: &mut core::fmt::Formatter<'_>) -> core::fmt::Result {
+            core::fmt::Debug::fmt(&*self.0, f)
+        }
+    }
+    impl<T> core::iter::FromIterator<T> for BVec<T> {
+        fn from_iter<I: IntoIterator<Item = T>>(iter: I) -> Self {
+            let mut v = BVec::new();
+            for x in iter {
+                v.push(x);
+            }
+            v
+        }
+    }
+    impl<'a, T> IntoIterator for &'a BVec<T> {
+        type Item = &'a T;
+        type IntoIter = core::slice::Iter<'a, T>;
+        fn into_iter(self) -> Self::IntoIter {
+            self.0.as_slice().iter()
+        }
+    }
+    impl<T> IntoIterator for BVec<T> {
+        type Item = T;
+        type IntoIter = Drain<'static, T>;
+        fn into_iter(self) -> Self::IntoIter {
+            (*self.0).into_iter()
+        }
+    }
+
+    /// What the crate-level `vec!` macro builds: the target type (`Vec` or `BVec`) is inferred from the context.
+    pub trait VecLike<T>: Default {
+        fn vpush(&mut self, v: T);
+    }
+    impl<T> VecLike<T> for Vec<T> {
+        fn vpush(&mut self, v: T) {
+            self.push(v)
+        }
+    }
+    impl<T> VecLike<T> for BVec<T> {
+        fn vpush(&mut self, v: T) {
+            self.push(v)
+        }
+    }
 }
 
 // =================================================================================================================
 pub mod collections {
+    use super::cap::{DEQ, MAP};
     use super::vec::Vec;
     use core::borrow::Borrow;
 
     /// Deque with the front at the END of a bounded Vec (pop_front = pop).
     pub struct VecDeque<T> {
-        v: Vec<T>,
+        v: Vec<T, DEQ>,
     }
     impl<T> VecDeque<T> {
         pub fn new() -> Self {
@@ -794,7 +941,7 @@ pub mod collections {
             self.v.clear()
         }
         /// Only the full range is used by the repository (`drain(..)`): front-to-back order.
-        pub fn drain<R: core::ops::RangeBounds<usize>>(&mut self, range: R) -> core::iter::Rev<super::vec::Drain<'_, T>> {
+        pub fn drain<R: core::ops::RangeBounds<usize>>(&mut self, range: R) -> core::iter::Rev<super::vec::Drain<'_, T, DEQ>> {
             assert!(matches!(range.start_bound(), core::ops::Bound::Unbounded));
             assert!(matches!(range.end_bound(), core::ops::Bound::Unbounded));
             self.v.drain(..).rev()
@@ -810,7 +957,7 @@ pub mod collections {
     }
     impl<T> core::iter::FromIterator<T> for VecDeque<T> {
         fn from_iter<I: IntoIterator<Item = T>>(iter: I) -> Self {
-            let mut v: Vec<T> = Vec::new();
+            let mut v: Vec<T, DEQ> = Vec::new();
             for x in iter {
                 v.push(x);
             }
@@ -827,7 +974,7 @@ pub mod collections {
     // ---------------------------------------------------------------------------------------------------------
     /// Insertion-ordered association list standing in for `HashMap` (keys compared with `==`).
     pub struct HashMap<K, V> {
-        v: Vec<(K, V)>,
+        v: Vec<(K, V), MAP>,
     }
     pub mod hash_map {
         pub use super::HashMap;
@@ -978,7 +1125,7 @@ pub mod collections {
     }
     impl<K, V> IntoIterator for HashMap<K, V> {
         type Item = (K, V);
-        type IntoIter = super::vec::IntoIter<(K, V)>;
+        type IntoIter = super::vec::IntoIter<(K, V), MAP>;
         fn into_iter(self) -> Self::IntoIter {
             self.v.into_iter()
         }
@@ -994,7 +1141,7 @@ pub mod collections {
     // ---------------------------------------------------------------------------------------------------------
     /// Sorted association list standing in for `BTreeMap`.
     pub struct BTreeMap<K, V> {
-        v: Vec<(K, V)>,
+        v: Vec<(K, V), MAP>,
     }
     pub mod btree_map {
         pub use super::BTreeMap;
@@ -1149,7 +1296,7 @@ pub mod collections {
         {
             let i = self.lower(k);
             let n = self.v.len();
-            let tail: Vec<(K, V)> = self.v.drain(i..n).collect();
+            let tail: Vec<(K, V), MAP> = self.v.drain(i..n).collect();
             BTreeMap { v: tail }
         }
     }
@@ -1170,7 +1317,7 @@ pub mod collections {
     }
     impl<K, V> IntoIterator for BTreeMap<K, V> {
         type Item = (K, V);
-        type IntoIter = super::vec::IntoIter<(K, V)>;
+        type IntoIter = super::vec::IntoIter<(K, V), MAP>;
         fn into_iter(self) -> Self::IntoIter {
             self.v.into_iter()
         }
@@ -1423,5 +1570,5 @@ pub mod sync {
 
 pub mod prelude {
     pub use super::string::{String, VStr, VToString};
-    pub use super::vec::Vec;
+    pub use super::vec::{BVec, Vec};
 }
